@@ -1,6 +1,6 @@
 //! C10: loading and saving are deterministic.
 //!
-//! `C10 det <fmt> <G> <K> <L> <F> <O> <B> <X> => ok d=<#dumps> t=<#trees> sorted=<0|1> <G'> <K'> T:<features hex> | err d=<#outcomes>`
+//! `C10 det <fmt> <G> <K> <L> <F> <O> <B> <X> => ok d=<#dumps> t=<#trees> sorted=<0|1> p=<#prestate trees> <G'> <K'> T:<features hex> | err d=<#outcomes>`
 //! `<G> <K> <L>` as in C15 (`L` = glyph names); `<F>` = `F!` | `F:<hex classes>`; `<O>` = `O!` | `O:tag,tag`
 //! (robofab featureorder); `<B>` = `B!` | `B:tag=text;tag=text` (robofab feature blocks, format 1 only);
 //! `<X>` = `X:<n>` extra content selector (nested lib dictionaries written in unsorted order, data files,
@@ -178,6 +178,50 @@ fn written_sorted(dir: &Path) -> bool {
     ok
 }
 
+fn copy_tree(from: &Path, to: &Path) {
+    std::fs::create_dir_all(to).unwrap();
+    for e in std::fs::read_dir(from).unwrap().flatten() {
+        let p = e.path();
+        let t = to.join(e.file_name());
+        if p.is_dir() {
+            copy_tree(&p, &t);
+        } else {
+            std::fs::copy(&p, &t).unwrap();
+        }
+    }
+}
+
+/// pre-state `pre` of a save target
+fn prepare_target(out: &Path, pre: usize, some_ufo: &Path) {
+    match pre {
+        0 => {}
+        1 => std::fs::create_dir_all(out).unwrap(),
+        2 | 4 => {
+            std::fs::create_dir_all(out.join("data").join("old")).unwrap();
+            std::fs::create_dir_all(out.join("glyphs")).unwrap();
+            std::fs::create_dir_all(out.join("images")).unwrap();
+            std::fs::write(out.join("features.fea"), "# stale features\n").unwrap();
+            std::fs::write(out.join("data").join("old").join("stale.txt"), "stale").unwrap();
+            std::fs::write(out.join(".hidden"), "h").unwrap();
+            std::fs::write(out.join("notes.txt"), "not a ufo").unwrap();
+            std::fs::write(out.join("glyphs").join("old_.glif"), "<glyph/>").unwrap();
+            std::fs::write(out.join("groups.plist"), "stale").unwrap();
+            if pre == 4 {
+                // looks like a UFO except for metainfo.plist
+                std::fs::write(out.join("layercontents.plist"), "stale").unwrap();
+                std::fs::write(out.join("lib.plist"), "stale").unwrap();
+                std::fs::write(out.join("kerning.plist"), "stale").unwrap();
+            }
+        }
+        _ => {
+            copy_tree(some_ufo, out);
+            std::fs::write(out.join("features.fea"), "# features of the other font\n").unwrap();
+            std::fs::create_dir_all(out.join("data")).unwrap();
+            std::fs::write(out.join("data").join("other.txt"), "other").unwrap();
+        }
+    }
+}
+
 /// one load (+ save) of `tree`; returns (dump or error class, tree hash of the save, sorted)
 fn load_save(tree: &Path, out: &Path, edits: &[(String, String)]) -> (String, u64, bool) {
     match guarded(|| Font::load(tree)) {
@@ -222,6 +266,7 @@ pub fn observe_case(c: &DCase, dir: &Path, loads: usize, procs: usize) -> String
     let mut trees: BTreeSet<u64> = BTreeSet::new();
     let mut sorted = true;
     let mut first: Option<String> = None;
+    let mut prestates: BTreeSet<u64> = BTreeSet::new();
     for i in 0..loads {
         let (d, h, s) = load_save(&tree, &out, &c.edits);
         if first.is_none() {
@@ -240,6 +285,22 @@ pub fn observe_case(c: &DCase, dir: &Path, loads: usize, procs: usize) -> String
                     rm_rf(&out);
                     if let Ok(Ok(())) = guarded(|| f.save(&out)) {
                         trees.insert(tree_hash(&out));
+                    }
+                }
+                rm_rf(&out);
+                // the same font saved over different pre-states of the target: nothing there, an empty
+                // directory, a non-empty directory that is no UFO (stale feature file, data, hidden
+                // file, a glyphs directory), a different UFO, a UFO-looking directory without metainfo
+                for pre in 0..5 {
+                    rm_rf(&out);
+                    prepare_target(&out, pre, &tree);
+                    match guarded(|| f.save(&out)) {
+                        Ok(Ok(())) => {
+                            prestates.insert(tree_hash(&out));
+                        }
+                        _ => {
+                            prestates.insert(3);
+                        }
                     }
                 }
                 rm_rf(&out);
@@ -274,7 +335,7 @@ pub fn observe_case(c: &DCase, dir: &Path, loads: usize, procs: usize) -> String
     }
     // compared part of the dump: groups, kerning, features
     let toks: Vec<&str> = first.split(' ').collect();
-    format!("ok d={} t={} sorted={} {} {} {}", dumps.len(), trees.len(), sorted as u8, toks[0], toks[1], toks[2])
+    format!("ok d={} t={} sorted={} p={} {} {} {}", dumps.len(), trees.len(), sorted as u8, prestates.len(), toks[0], toks[1], toks[2])
 }
 
 pub fn edits_tok(e: &[(String, String)]) -> String {
@@ -641,7 +702,7 @@ pub fn gen(tier: &str, seed: u64, out: &mut dyn Write) {
     let mut rng = Rng::new(seed);
     let dir = scratch();
     let thorough = tier == "thorough";
-    let n = if thorough { 3000 } else { 200 };
+    let n = if thorough { 3000 } else { 160 };
     let loads = if thorough { 32 } else { 12 };
     for i in 0..n {
         let c = gen_dcase(&mut rng);
@@ -649,6 +710,6 @@ pub fn gen(tier: &str, seed: u64, out: &mut dyn Write) {
         let obs = observe_case(&c, &dir, loads, procs);
         writeln!(out, "{} => {}", c.tokens(), obs).unwrap();
     }
-    gen_lib_lines(&mut rng, if thorough { 20000 } else { 1500 }, &dir, out);
+    gen_lib_lines(&mut rng, if thorough { 20000 } else { 1200 }, &dir, out);
     rm_rf(&dir);
 }
